@@ -188,3 +188,52 @@ def run(ctx, col: Collector):
                 col.obs.append(type(o)(col.prop, 'C10-links', o.construct, o.status, o.msg, o.file, o.line, o.extra))
         col.floor('C10-links', 'link obligations', n, 8)
     guarded(col, 'C10-links', 'links', links)
+
+    def presence_tests():
+        # A fresh build maps an empty value to None (`self.name = name if name else None`), an in-place edit (`ref.name = ''`) does not: the attribute is a plain
+        # one.  Both states mean "not set", so a renderer must ask for the attribute's truth value; `is None` tells them apart and the edited object renders
+        # differently from a freshly built one with the same content.
+        from .common import get_cg, render_entries
+        idx = ctx.idx
+        normalised = {}
+        for ci in idx.classes.values():
+            if not ci.module.startswith('pydbml._classes'):
+                continue
+            init = ci.methods.get('__init__')
+            if init is None:
+                continue
+            for n in walk_no_nested(init.node):
+                if isinstance(n, ast.Assign) and len(n.targets) == 1 and isinstance(n.targets[0], ast.Attribute) and norm(n.targets[0].value) == 'self':
+                    v, a = n.value, n.targets[0].attr
+                    falsy_to_none = (isinstance(v, ast.IfExp) and isinstance(v.orelse, ast.Constant) and v.orelse.value is None and norm(v.test) == norm(v.body)
+                                     and isinstance(v.body, ast.Name)) or \
+                        (isinstance(v, ast.BoolOp) and isinstance(v.op, ast.Or) and len(v.values) == 2 and isinstance(v.values[0], ast.Name)
+                         and isinstance(v.values[1], ast.Constant) and v.values[1].value is None)
+                    if falsy_to_none and a not in ci.setters and a not in ci.props:
+                        normalised[(ci.id, a)] = n
+        col.floor('C10-presence', 'attributes whose constructor maps an empty value to None', len(normalised), 2)
+        cg = get_cg(ctx)
+        closure = cg.closure(e.id for e in render_entries(ctx))
+        n_tests = 0
+        for fid in sorted(closure):
+            fi = idx.funcs[fid]
+            if not fi.module.startswith('pydbml.renderer') or not isinstance(fi.node, ast.FunctionDef):
+                continue
+            ptypes = idx.param_types(fi)
+            for c in ast.walk(fi.node):
+                if not (isinstance(c, ast.Compare) and len(c.ops) == 1 and isinstance(c.ops[0], (ast.Is, ast.IsNot, ast.Eq, ast.NotEq)) and isinstance(c.comparators[0], ast.Constant)
+                        and c.comparators[0].value is None and isinstance(c.left, ast.Attribute) and isinstance(c.left.value, ast.Name)):
+                    continue
+                for cid in ptypes.get(c.left.value.id, set()):
+                    hit = next(((k, v) for k, v in normalised.items() if k[1] == c.left.attr and k[0] in {x.id for x in idx.mro(cid)}), None)
+                    if hit is None:
+                        continue
+                    n_tests += 1
+                    cname = idx.classes[hit[0][0]].name
+                    col.bad('C10-presence', f'{fi.qualname}:{cname}.{c.left.attr}', f'{fi.qualname} decides whether {cname}.{c.left.attr} is set with `{norm(c)}`; the constructor stores '
+                            f'None for an empty value but the attribute is plain, so after `obj.{c.left.attr} = \'\'` the rendering differs from that of a freshly built '
+                            f'{cname} with the same content (which has None there)', node=c, file=fi.file)
+        if n_tests == 0:
+            col.ok('C10-presence', 'renderers:truth-tests', f'no renderer distinguishes None from an empty value for {sorted(idx.classes[k[0]].name + "." + k[1] for k in normalised)}',
+                   file='pydbml/renderer/base.py')
+    guarded(col, 'C10-presence', 'presence-tests', presence_tests)
